@@ -124,25 +124,3 @@ D!(c15_trigger_bits_c, {
     drift(StatType::TriggerType(1 << 30), false);
     drift(StatType::TriggerType(1 << 31), false);
 });
-//@ harness: c15_alpide_flags_a props=C15 tier=quick class=functional covers=1 mem=16 timeout=900 est=120
-//@ bounds: ALPIDE statistics: one additional chip trailer with readout flags 0xB8 (busy violation) resp. 0xBC (data overrun): the counters are compared
-D!(c15_alpide_flags_a, {
-    for_trailer(0xB8);
-    for_trailer(0xBC);
-});
-//@ harness: c15_alpide_flags_b props=C15 tier=quick class=functional covers=1 mem=16 timeout=900 est=120
-//@ bounds: same for 0xBE (transmission in fatal) and 0xB7 (flushed incomplete + strobe extended + busy transition)
-D!(c15_alpide_flags_b, {
-    for_trailer(0xBE);
-    for_trailer(0xB7);
-});
-//@ harness: c15_alpide_flags_c props=C15 tier=quick class=functional covers=1 mem=16 timeout=900 est=60
-//@ bounds: same for 0xB0 (only the trailer count changes)
-D!(c15_alpide_flags_c, {
-    for_trailer(0xB0);
-});
-fn for_trailer(t: u8) {
-    let mut s = AlpideStats::default();
-    s.log_readout_flags(t);
-    drift(StatType::AlpideStats(s), true)
-}
